@@ -454,9 +454,10 @@ def marginText (depth margin : Nat) : List Nat :=
   (List.range depth).flatMap fun i => if margin.testBit i then asc "    " else asc "|   "
 
 /-- the loop body of `draw_` over the remaining entries; `rec` draws a sub-directory at `depth + 1`
-with the given margin and budget.  Returns the text and the remaining budget (the `Cell`). -/
-def drawEntries (rec : Dir → Nat → Nat → Out (List Nat × Nat)) (r : Resources) (depth margin : Nat) (isRoot : Bool) :
-    List DirEntry → Nat → Out (List Nat × Nat)
+with the given margin and budget.  Returns the text — one record per entry drawn, in output order:
+margin, prefix, name, `/` for a directory, newline — and the remaining budget (the `Cell`). -/
+def drawEntries (rec : Dir → Nat → Nat → Out (List (List Nat) × Nat)) (r : Resources) (depth margin : Nat) (isRoot : Bool) :
+    List DirEntry → Nat → Out (List (List Nat) × Nat)
   | [], b => .ok ([], b)
   | e :: rest, b =>
     let tail := rest.isEmpty                                     -- entries.len() == 0
@@ -471,7 +472,7 @@ def drawEntries (rec : Dir → Nat → Nat → Out (List Nat × Nat)) (r : Resou
     match nameOut with
     | .ok nameS =>
       let line := pre ++ nameS ++ (if e.isDir then [47, 10] else [10])
-      let sub : Out (List Nat × Nat) :=
+      let sub : Out (List (List Nat) × Nat) :=
         match e.entry r with
         | .ok (.dir d) => rec d (margin ||| (if tail then 2 ^ depth else 0)) b
         | .ok (.data _) => .ok ([], b)
@@ -482,7 +483,7 @@ def drawEntries (rec : Dir → Nat → Nat → Out (List Nat × Nat)) (r : Resou
       match sub with
       | .ok (subText, b1) =>
         match drawEntries rec r depth margin isRoot rest b1 with
-        | .ok (more, b2) => .ok (line ++ subText ++ more, b2)
+        | .ok (more, b2) => .ok (line :: (subText ++ more), b2)
         | o => o
       | o => o
     | .err e => .err e
@@ -491,7 +492,7 @@ def drawEntries (rec : Dir → Nat → Nat → Out (List Nat × Nat)) (r : Resou
     | .diverge => .diverge
 
 -- src: art.rs:TreeFmt::draw_ with `k = 32 - depth`
-def drawDir (r : Resources) : Nat → Bool → Dir → Nat → Nat → Out (List Nat × Nat)
+def drawDir (r : Resources) : Nat → Bool → Dir → Nat → Nat → Out (List (List Nat) × Nat)
   | 0, _, _, _, b => .ok ([], b)                                  -- depth >= 32: quiet failsafe
   | k+1, isRoot, d, margin, b =>
     if b = 0 then .ok ([], b)                                     -- budget.get() == 0
@@ -503,8 +504,8 @@ def drawDir (r : Resources) : Nat → Bool → Dir → Nat → Nat → Out (List
       | .ub s => .ub s
       | .diverge => .diverge
 
-def textOf : Out (List Nat × Nat) → Out (List Nat)
-  | .ok (t, _) => .ok t
+def textOf : Out (List (List Nat) × Nat) → Out (List Nat)
+  | .ok (t, _) => .ok t.flatten
   | .err e => .err e
   | .panic s => .panic s
   | .ub s => .ub s
